@@ -49,9 +49,9 @@ theorem symmetrize_square (n : Nat) (a : Mat) : Square n (symmetrize n a) := by
   obtain ⟨i, _, rfl⟩ := hr
   simp
 
-/-- a dict built by successive `d[k] = v` over distinct keys is the list of the pairs -/
+/-- a dict built by successive `d[k] = d.get(k, 0) + v` over distinct fresh keys is the list of the pairs -/
 theorem foldl_set_eq : ∀ (l : List (Nat × ℚ)) (d : Dict ℚ), (l.map (·.1)).Nodup →
-    (∀ p ∈ l, p.1 ∉ Dict.keys d) → l.foldl (fun d p => d.set p.1 p.2) d = d ++ l := by
+    (∀ p ∈ l, p.1 ∉ Dict.keys d) → l.foldl (fun d p => d.set p.1 ((d.get? p.1).getD 0 + p.2)) d = d ++ l := by
   intro l
   induction l with
   | nil => intro d _ _; simp
@@ -59,7 +59,8 @@ theorem foldl_set_eq : ∀ (l : List (Nat × ℚ)) (d : Dict ℚ), (l.map (·.1)
     intro d hnd hfresh
     have hnd' : p.1 ∉ ps.map (·.1) ∧ (ps.map (·.1)).Nodup := by
       rw [List.map_cons] at hnd; exact List.nodup_cons.mp hnd
-    rw [List.foldl_cons, Dict.set_of_not_mem (hfresh p List.mem_cons_self)]
+    have hnone : d.get? p.1 = none := (Dict.get?_eq_none_iff _ _).mpr (hfresh p List.mem_cons_self)
+    rw [List.foldl_cons, hnone, Option.getD_none, zero_add, Dict.set_of_not_mem (hfresh p List.mem_cons_self)]
     rw [ih _ hnd'.2]
     · simp
     · intro q hq
